@@ -1,4 +1,5 @@
 import RxModel.Driver.Proto
+import RxModel.Driver.SuiteTime
 /-
   rxdriver: reads the suite file on stdin, runs the model, prints one line per
   external event — the lines the harness prints for the real code.
@@ -47,6 +48,7 @@ def runPipeCase (c : Case) : List String :=
 def runCase (c : Case) : List String :=
   match c.suite with
   | "pipe" => runPipeCase c
+  | "time" => runTimeCase c.id ((c.field "pipe").headD (.atom "")) c.events
   | s => [s!"{c.id}.0 UNKNOWN-SUITE {s}"]
 
 partial def loop (h : IO.FS.Stream) (out : IO.FS.Stream) (cur : Case) : IO Unit := do
